@@ -97,7 +97,8 @@ func zzC20_tcp_wire() {
 	}, 0)
 	v := symU8("noresponse")
 	req := pool.NewMessage(context.Background())
-	req.SetCode(codes.GET)
+	// the request method: one of the four of RFC 7252, FETCH / PATCH / iPATCH of RFC 8132, or an unassigned 0.xx
+	req.SetCode([]codes.Code{codes.GET, codes.POST, codes.PUT, codes.DELETE, 5, 6, 7, 0x1f}[symChoose("method", 8)])
 	req.SetToken(message.Token{0xA1})
 	present := symChoose("option", 2) == 0
 	if present {
